@@ -363,4 +363,33 @@ example : ((NSt.init exBad).map fun s => [0, 1, 2, 3, 4].map fun ev =>
     = some [(some true, some true, true), (some true, some true, true), (some true, some true, true),
             (some false, none, true), (some false, none, false)] := by decide
 
+
+/-! ### a locally declared transition naming a GLOBAL destination (known finding F-C12-local-global-dest)
+
+`A` (1) with children `1` (3, initial) and `2` (4) declares, INSIDE its own definition, event 0: `1 → B_x`
+(`[2, 5]`, a registered global name that does not resolve relative to `A`); `B` (2) has the child `x` (5).
+`get_state` falls back to global names, so the destination "resolves" (`destsOK`), `may_` answers True, and the trigger
+runs the transition's stage (`before` …: `hasExec`) and then fails inside `_resolve_transition` / `_enter_nested`
+(KeyError = `.other`) with the configuration unchanged. -/
+def exGlobalDest : NCfg :=
+  { states := .cons { name := 1, initial := [3],
+                      events := [(0, [{ source := [3], dest := some [2, 5] }])] }
+      (.cons { name := 3 } .nil (.cons { name := 4 } .nil .nil))
+      (.cons { name := 2, initial := [5] } (.cons { name := 5 } .nil .nil) .nil),
+    initial := [1] }
+
+/-- **counterexample to "may_ True ⇒ the trigger COMPLETES a transition"** (the model follows the code): well-formed
+definitions, every destination resolves in the sense of `get_state`, `may_` is True, and the trigger raises from the
+library's own resolution, leaving the configuration as it was.  `C12_nested` is not contradicted: its `NExecutes`
+means "the transition stage was entered" (a `before`-stage record exists), which is the case here. -/
+theorem C12_nested_global_dest_counterexample :
+    exGlobalDest.states.WF = true ∧ exGlobalDest.destsOK = true ∧
+    ((NSt.init exGlobalDest).map fun s =>
+      (nestedWF exGlobalDest s.conf,
+       match ncanTrigger exSub12N (fun _ _ => {}) exGlobalDest ⟨0, 0⟩ 0 s with | .ok b _ => some b | _ => none,
+       match ntriggerEvent exSub12N (fun _ _ => {}) exGlobalDest ⟨0, 1⟩ 0 s with
+        | .err e s' => some (e, s'.conf == s.conf, hasExec (s'.glog.drop s.glog.length))
+        | _ => none))
+    = some (true, some true, some (Exc.other, true, true)) := by decide
+
 end TM
